@@ -425,8 +425,12 @@ def _fn(m, name):
 def _ext_branches(f):
     """(int-width branch statements, type branch statements) of zext/sext/trunc"""
     for st in f.body:
-        if isinstance(st, ast.If) and isinstance(st.test, ast.Call) and norm(st.test.func) == 'isinstance':
-            return st.body, st.orelse
+        if isinstance(st, ast.If):
+            t, neg = st.test, False
+            while isinstance(t, ast.UnaryOp) and isinstance(t.op, ast.Not):
+                t, neg = t.operand, not neg
+            if isinstance(t, ast.Call) and norm(t.func) == 'isinstance' and norm(t.args[1]) == 'int':
+                return (st.orelse, st.body) if neg else (st.body, st.orelse)
     raise AnalysisError(f"helpers.{f.name}: int/type case split not found")
 
 
@@ -575,15 +579,27 @@ def rule_intlog(repo, only=None):
         m = repo.mod(HELPERS)
         f = m.get_func('clog2')
         n = f.args.args[0].arg
-        rets = [x for x in walk_no_nested(f) if isinstance(x, ast.Return)]
-        txt = norm(rets[-1].value) if rets else ''
-        forms = {f"(int({n}) - 1).bit_length()", f"({n} - 1).bit_length()", f"int({n} - 1).bit_length()",
-                 f"len(bin({n} - 1)) - 2"}
-        asserts = [norm(s.test) for s in f.body if isinstance(s, ast.Assert)]
-        if txt in forms and any(a in (f"{n} > 0", f"{n} >= 1", f"0 < {n}") for a in asserts):
-            r.ok(m, 'clog2', txt)
-        else:
-            r.bad(m, 'clog2', txt, "clog2(N) must be (N-1).bit_length() for N >= 1 (least k with 2^k >= N)", f.lineno)
+        logs = [c for c in ast.walk(f) if isinstance(c, ast.Call) and norm(c.func) in FLOAT_LOGS]
+        if not logs:
+            # constant folding of the pure integer function over boundary values: must equal (N-1).bit_length()
+            pts = sorted({v for k in range(0, 71) for v in ((1 << k) - 1, 1 << k, (1 << k) + 1) if v >= 1} | set(range(1, 40)))
+            wrong = None
+            for v in pts:
+                ev = Evaluator({n: v}, arith=True, funcs={'int': int, 'len': len, 'bin': bin, 'abs': abs, 'max': max, 'min': min})
+                kind, val = ev.run(f.body)
+                r.evaluations += 1
+                if kind != 'return' or val != (v - 1).bit_length():
+                    wrong = (v, kind, val)
+                    break
+            asserts_ok = Evaluator({n: 0}, arith=True, funcs={'int': int}).run(f.body)[0] == 'raise'
+            cons = f"clog2({n}) evaluated on {len(pts)} boundary values up to 2**70+1"
+            if wrong:
+                r.bad(m, 'clog2', cons, f"clog2({wrong[0]}) gives {wrong[2]!r}, must be {(wrong[0]-1).bit_length()} "
+                      f"(least k with 2^k >= N)", f.lineno)
+            elif not asserts_ok:
+                r.bad(m, 'clog2', cons, "clog2(0) must be rejected", f.lineno)
+            else:
+                r.ok(m, 'clog2', cons)
     r.require_floor(2 if only else 4)
     return r
 
@@ -638,6 +654,8 @@ MUTANTS = [
 ]
 
 EQUIV = [
+    _m('clog2-helper-local', "  return ( int(N) - 1 ).bit_length()", "  max_index = int(N) - 1\n  return max_index.bit_length()", file=HELPERS),
+    _m('trunc-branches-flipped', "def trunc( value, new_width ):\n  if isinstance( new_width, int ):\n    assert new_width <= value.nbits\n    return Bits( new_width, value.uint(), trunc_int=True )\n  else:\n    assert issubclass( new_width, Bits )\n    return new_width( value.uint(), trunc_int=True )", "def trunc( value, new_width ):\n  if not isinstance( new_width, int ):\n    assert issubclass( new_width, Bits )\n    return new_width( value.uint(), trunc_int=True )\n  else:\n    assert new_width <= value.nbits\n    return Bits( new_width, value.uint(), trunc_int=True )", file=HELPERS),
     _m('bounds-as-conjunction', "        assert 0 <= start < stop <= self._nbits", "        assert 0 <= start and start < stop and stop <= self._nbits", count=2),
     _m('index-check-as-not-range', "    if i >= self._nbits or i < 0:", "    if not (0 <= i < self._nbits):", count=2),
     _m('default-swapped-ifexp', "        stop  = self._nbits if idx.stop is None else int(idx.stop)\n", "        stop  = int(idx.stop) if idx.stop is not None else self._nbits\n", count=2),
